@@ -365,8 +365,17 @@ def r3(F, rep):
             txt = X.key(cn, f, res)
             descr.append("%s is %s" % (X.re_strip(txt), pol))
             fs = C.facts(f, cn, pol, res)
+            # the comparison itself, looked up through a constant boolean local and a cast to bool
+            cmpn = X.strip(cn)
+            for _ in range(4):
+                if cmpn["k"] == "DeclRefExpr" and cmpn.get("d") in res:
+                    cmpn = X.strip(res[cmpn["d"]])
+                elif cmpn["k"] in ("CXXStaticCastExpr", "CXXFunctionalCastExpr", "CStyleCastExpr") and X.kids(cmpn):
+                    cmpn = X.strip(X.kids(cmpn)[-1])
+                else:
+                    break
             if any(t[0] == "pos" and "replica_share_freq()" in t[1] for t in fs) and pol and \
-                    X.strip(cn)["k"] == "BinaryOperator" and X.strip(cn)["op"] in (">", "!="):
+                    cmpn["k"] == "BinaryOperator" and cmpn["op"] in (">", "!="):
                 has_freq = True
             elif cf_is_loop(f, cid):
                 continue
